@@ -26,7 +26,8 @@ def cross_thread(res, tier, seed, have_drv):
     'pending cause => reported' clauses of the ping / channel / executor monitors on controlled schedules and
     uncontrolled races of the real crate.  The protocol theorems behind them (PingProto / ChanProto / ExecProto
     wake invariants) are tied to the code by the correspondences of C03 / C04 / C10."""
-    from props import c03, c04, c10
+    from props import c03, c04, c10, c18
+    import itertools
     rnd = random.Random(seed * 7 + 1)
     k = 1 if tier == "quick" else 20
     found = []
@@ -57,13 +58,31 @@ def cross_thread(res, tier, seed, have_drv):
         if v and "a wake was lost" in v:
             found.append(("executor", v, c))
     n_exec = len(cases)
+    # wrapped sources (TransientSource): after the parent's unregister / register (disable / enable through the loop)
+    # the kept child must be back in the poller, or its pending readiness can never be dispatched
+    wcases = []
+    for init in ("from 0", "default"):
+        for n in range(0, 4):
+            for seq in itertools.product(c18.ALPHABET, repeat=n):
+                wcases.append(c18.render(init, seq))
+    for _ in range(200 * k):
+        init = rnd.choice(["from 0", "from 0", "default"])
+        wcases.append(c18.render(init, c18.protocol_walk(rnd, rnd.randrange(4, 12), init)))
+    _, _, wver = c18.run_all(wcases, have_drv)
+    for c, v in zip(wcases, wver or []):
+        if v.startswith("bad quiescentMismatch"):
+            found.append(("wrapped source", "a TransientSource's kept child is not registered with the poller although its parent is "
+                          "(Spec_C18: %s)" % v, c))
+    res.cov["wrapped_source_sequences"] = len(wcases)
     res.cov["cross_thread"] = {"ping_schedules": n_ping, "channel_schedules": n_chan, "channel_race_runs": len(races),
                                "executor_schedules": n_exec, "violations": len(found)}
     res.cov["evaluations"] = res.cov.get("evaluations", 0) + n_ping + n_chan + len(races) + n_exec
     for kind, why, c in found[:2]:
         d = C.write_replay(res.pid, {"case.sched": "\n".join(c) + "\n", "verdict.txt": why + "\n", "kind.txt": kind + "\n"})
-        res.violations.append(("C02 across threads (%s): a pending cause was not dispatched: %s   [%s]" % (kind, why, " | ".join(c[1:-1])[:500]),
-                               os.path.join(d, "case.sched")))
+        if kind == "wrapped source":
+            os.rename(os.path.join(d, "case.sched"), os.path.join(d, "case.ops"))
+        res.violations.append(("C02 (%s): a pending cause was not / cannot be dispatched: %s   [%s]" % (kind, why, " | ".join(c[1:-1])[:500]),
+                               os.path.join(d, "case.ops" if kind == "wrapped source" else "case.sched")))
     if found:
         res.cov["impl_monitor_failures"] += len(found)
 
@@ -77,10 +96,14 @@ def run(res, tier, seed, search=False, have_drv=True):
 
 def replay(path):
     case = [l.rstrip("\n") for l in open(path) if l.strip()]
-    if any(l.startswith("sched ") or l.startswith("race ") for l in case):
+    kf0 = os.path.join(os.path.dirname(path), "kind.txt")
+    if any(l.startswith("sched ") or l.startswith("race ") for l in case) or os.path.exists(kf0):
         from props import c03, c04, c10
         kf = os.path.join(os.path.dirname(path), "kind.txt")
         kind = open(kf).read().strip() if os.path.exists(kf) else ""
+        if kind == "wrapped source":
+            from props import c18
+            return c18.replay(path)
         mod = c03 if kind == "ping" else c10 if kind == "executor" else c04
         return mod.replay(path)
     return coreprop.replay(path, PID)
